@@ -25,6 +25,7 @@ import (
 	"luahelper-lsp/langserver/check/compiler/parser"
 	"luahelper-lsp/langserver/log"
 
+	"verif/exec/lhlib"
 	"verif/proto"
 )
 
@@ -74,9 +75,9 @@ func main() {
 			case "session":
 				resp = runSession(&req)
 			case "parse":
-				resp = runParse(&req)
+				resp = lhlib.RunParse(&req)
 			case "annot":
-				resp = runAnnot(&req)
+				resp = lhlib.RunAnnot(&req)
 			default:
 				resp.Fatal = "unknown cmd " + req.Cmd
 			}
@@ -95,18 +96,6 @@ func main() {
 		}
 	}
 	os.RemoveAll(scratchBase)
-}
-
-func runParse(req *proto.Request) (resp proto.Response) {
-	p := parser.CreateParser(req.Text, "verif.lua")
-	_, _, errList := p.BeginAnalyze()
-	for _, e := range errList {
-		resp.ParseErrs = append(resp.ParseErrs, proto.ParseErr{
-			SL: e.Loc.StartLine, SC: e.Loc.StartColumn, EL: e.Loc.EndLine, EC: e.Loc.EndColumn, Msg: e.ErrStr})
-	}
-	resp.Recovered = parser.VerifTakeRecovered()
-	resp.OK = true
-	return
 }
 
 // ---------------------------------------------------------------------------------------------
